@@ -86,6 +86,8 @@ TABLE: List[Entry] = [
     ("R-INIT-COHERENCE", None, "missing", {"C13", "C15"}),
     ("R-INIT-COHERENCE", None, "triggers-shape", {"C13", "C15"}),  # a table accumulated with |= over uninitialised memory depends on the history of the process
     ("R-INIT-COHERENCE", None, None, {"C13"}),
+    ("R-SENTINEL", None, "returns-non-decision-domain", {"C01", "C02", "C04", "C09", "C16"}),
+    ("R-SENTINEL", None, None, {"C04", "C16"}),
     # ---- wake-up primitive ---------------------------------------------------------------------------------
     ("R-WAKEUP", None, None, {"C01", "C02", "C08"}),
     # ---- optimisation loop: which clauses are also termination conditions
